@@ -64,20 +64,24 @@ class C06(Check):
         for buf in (2, 11):
             for eol in ("LF+blank", "CRLF", "LF-nofinal"):
                 out.append(("pair", buf, eol))
+            # no final newline and a last record whose length is a multiple of the line width (7 residues: widths 1, 7)
+            for w in (1, 7):
+                for eol in ("LF-nofinal", "CRLF-nofinal"):
+                    out.append(("pair", buf, eol, w))
         return out
 
-    def host_pair(self, buf, ctx, eol="LF"):
+    def host_pair(self, buf, ctx, eol="LF", w=4):
         """FASTA + AGP written from one assembly object (what pretext-to-asm does for -o x.fa): record length == AGP object end"""
         from mc.checks import c03
         from tola.assembly.assembly import Assembly
         from tola.fasta.stream import FastaStream
 
-        fi = c03.CHECK.make_index(4, eol, buf)
+        fi = c03.CHECK.make_index(w, eol, buf)
         rows = [r for r in c03.all_rows(c03.BUFFERS) if not (r[0] == "G" and r[1] == 0)]  # AGP cannot express a 0-length gap
         for r1 in rows:
             for r2 in [None, *rows]:
                 rr = [r1] if r2 is None else [r1, r2]
-                case = ["pair", buf, [list(r) for r in rr]] + ([eol] if eol != "LF" else [])
+                case = ["pair", buf, [list(r) for r in rr]] + ([eol] if eol != "LF" or w != 4 else []) + ([w] if w != 4 else [])
                 ctx.cur = case
                 ctx.evaluations += 1
                 ctx.nontrivial += 1
@@ -226,7 +230,7 @@ class C06(Check):
 
             c03_cli.run_shard(self, ("cli", *shard[1:]), ctx, validate_only=True)
         elif kind == "pair":
-            self.host_pair(shard[1], ctx, *(shard[2:3]))
+            self.host_pair(shard[1], ctx, *(shard[2:4]))
 
     def replay(self, case, ctx):
         kind = case[0]
@@ -243,7 +247,7 @@ class C06(Check):
 
             c03_cli.replay(self, case, ctx)
         elif kind == "pair":
-            self.host_pair(case[1], ctx, *(case[3:4]))
+            self.host_pair(case[1], ctx, *(case[3:5]))
 
 
 CHECK = C06()
